@@ -35,7 +35,14 @@ def parse(path):
             # args
             for a in re.finditer(r'(_\d+): ', m.group(2)):
                 cur.args.append(a.group(1))
-            fns.setdefault(cur.name, cur)
+            if cur.name in fns:
+                # several impls generated at one macro span share a name (pin-project-lite `project`): keep them all
+                n = 2
+                while "%s#%d" % (cur.name, n) in fns:
+                    n += 1
+                fns["%s#%d" % (cur.name, n)] = cur
+            else:
+                fns[cur.name] = cur
             continue
         if cur is None:
             m=CONST_RE.match(line)
